@@ -44,6 +44,26 @@ func c14Step(x *engine.Exec) []engine.Failure {
 	}
 	weightChanged := false
 	switch x.Op.K {
+	case world.KReimport:
+		// a chain restarted from its own export continues the same schedule: weights, ranges, decay parameters and both
+		// clocks of every asset are what they were
+		if x.Res.Err != nil {
+			return []engine.Failure{fail("restart", "error", "genesis export/import failed: %v", x.Res.Err)}
+		}
+		x.Cnt.Inc("restart")
+		var out []engine.Failure
+		for _, den := range prev.Denoms {
+			a, b := prev.Assets[den], next.Assets[den]
+			if a.RewardChangeInterval > 0 && a.LastRewardChangeTime.Before(a.RewardStartTime) {
+				x.Cnt.Inc("restart.with_decay_clock_before_reward_start")
+			}
+			if !a.RewardWeight.Equal(b.RewardWeight) || !a.LastRewardChangeTime.Equal(b.LastRewardChangeTime) || !a.RewardStartTime.Equal(b.RewardStartTime) ||
+				!a.RewardChangeRate.Equal(b.RewardChangeRate) || a.RewardChangeInterval != b.RewardChangeInterval ||
+				!a.RewardWeightRange.Min.Equal(b.RewardWeightRange.Min) || !a.RewardWeightRange.Max.Equal(b.RewardWeightRange.Max) {
+				out = append(out, fail("restart", "schedule-changed", "export/import changed the weight schedule of %s: weight %s -> %s, decay clock %s -> %s, start %s -> %s", den, a.RewardWeight, b.RewardWeight, a.LastRewardChangeTime, b.LastRewardChangeTime, a.RewardStartTime, b.RewardStartTime))
+			}
+		}
+		return out
 	case world.KBlock:
 		if x.Res.Err != nil {
 			return []engine.Failure{fail("endblock", "error", "EndBlocker failed: %v", x.Res.Err)}
@@ -309,10 +329,24 @@ func init() {
 				Ops: jops, Step: c14JailStep,
 				Required: []string{"weight_change", "validator.jailed", "weight_change.with_rewards_pending_for_non_bonded_validator"},
 			}
-			if tier == "thorough" {
-				return []*engine.Scenario{mk("c14-lifecycle", []int{2, 0, 2, 4, 2}, 9), jail}
+			// the schedule across a restart from a genesis export, in every governance-made configuration (decay switched on
+			// during the warm-up, growth, narrow range, decay off) and at every phase of the intervals
+			restart := mk("c14-restart", tierPick(tier, []int{0, 0, 1, 3, 1}, []int{0, 0, 2, 4, 2}), tierPick(tier, 5, 8))
+			restart.Seeds = [][]world.Op{seed}
+			restart.Ops = func(n *engine.Node) []world.Op {
+				var out []world.Op
+				for _, o := range ops(n) {
+					if o.K == world.KGovUpdate || (o.K == world.KBlock && o.Dt <= int64(3*U)) {
+						out = append(out, o)
+					}
+				}
+				return append(out, world.Op{K: world.KReimport, Class: ClsEnv})
 			}
-			return []*engine.Scenario{mk("c14-lifecycle", []int{2, 0, 1, 3, 1}, 5), jail}
+			restart.Required = []string{"restart", "restart.with_decay_clock_before_reward_start", "decay.single_interval"}
+			if tier == "thorough" {
+				return []*engine.Scenario{mk("c14-lifecycle", []int{2, 0, 2, 4, 2}, 9), jail, restart}
+			}
+			return []*engine.Scenario{mk("c14-lifecycle", []int{2, 0, 1, 3, 1}, 5), jail, restart}
 		},
 		Assumptions: []string{
 			"assets: aaa decays x0.5 every 1u in (0,5); bbb decays x0.9 every 2u in (1.5,2); ccc warms up until +4u on range (1,1); governance changes weight, rate (0.5/1/1.5), interval (0/1u/2u) and range; block steps 1u/2u/3u/7u",
